@@ -120,8 +120,26 @@ func resultType(c *ssa.CallCommon) types.Type {
 // clauses before the call, ghost updates after it) around the call itself.
 func (fr *Frame) doCall(site ssa.Instruction, c *ssa.CallCommon, fv Val, args []Val, cond T, st *State) (Val, T) {
 	vc := fr.x.vc
-	if fr.ct == nil || !fr.top || (len(fr.ct.CallAsserts) == 0 && len(fr.ct.CallSets) == 0) {
+	gl := vc.eng.cs.Global
+	if !vc.eng.useGlobals {
+		gl = nil
+	}
+	if fr.ct == nil || !fr.top || (len(fr.ct.CallAsserts) == 0 && len(fr.ct.CallSets) == 0 && gl == nil) {
 		return fr.doCall0(site, c, fv, args, cond, st)
+	}
+	assertsFor := func(k string) []*Clause {
+		out := fr.ct.CallAsserts[k]
+		if gl != nil && strings.HasSuffix(k, "#any") {
+			out = append(append([]*Clause(nil), out...), gl.CallAsserts[k]...)
+		}
+		return out
+	}
+	setsFor := func(k string) []SetDef {
+		out := fr.ct.CallSets[k]
+		if gl != nil && strings.HasSuffix(k, "#any") {
+			out = append(append([]SetDef(nil), out...), gl.CallSets[k]...)
+		}
+		return out
 	}
 	key := ""
 	if c.IsInvoke() {
@@ -165,7 +183,7 @@ func (fr *Frame) doCall(site ssa.Instruction, c *ssa.CallCommon, fv Val, args []
 		}
 	}
 	for _, k := range keys {
-		if cls, ok := fr.ct.CallAsserts[k]; ok {
+		if cls := assertsFor(k); len(cls) > 0 {
 			cev := fr.evaluator(st)
 			bind(cev)
 			for i, cl := range cls {
@@ -179,7 +197,7 @@ func (fr *Frame) doCall(site ssa.Instruction, c *ssa.CallCommon, fv Val, args []
 	}
 	res, c2 := fr.doCall0(site, c, fv, args, cond, st)
 	for _, k := range keys {
-		for _, sd := range fr.ct.CallSets[k] {
+		for _, sd := range setsFor(k) {
 			srt, ok := vc.eng.cs.Ghosts[sd.Ghost]
 			if !ok {
 				panic(fmt.Errorf("contract %s: set of undeclared ghost %s", fr.ct.Key, sd.Ghost))
@@ -409,7 +427,11 @@ func (fr *Frame) callContract(site ssa.Instruction, ct *Contract, key string, fn
 	ev.applyLets(ct)
 	for i, rq := range ct.Requires {
 		g := ev.evalBool(rq.E)
-		vc.oblige("pre@"+key, fmt.Sprintf("%d.%d", seq, i), rq.Src, append(append([]string(nil), rq.Tags...), fr.ctTags()...), fr.posOf(site), cond, g)
+		if fr.topSynth() {
+			// a function verified only for a call-site sweep makes no claim about its callees' preconditions
+		} else {
+			vc.oblige("pre@"+key, fmt.Sprintf("%d.%d", seq, i), rq.Src, append(append([]string(nil), rq.Tags...), fr.ctTags()...), fr.posOf(site), cond, g)
+		}
 		// after checking, the precondition may be assumed
 		vc.assert(Imp(cond, g))
 	}
@@ -466,6 +488,15 @@ func (fr *Frame) callContract(site ssa.Instruction, ct *Contract, key string, fn
 }
 
 func (fr *Frame) ctTags() []string { return nil }
+
+// topSynth: the function being verified has only a synthesised (sweep) contract.
+func (fr *Frame) topSynth() bool {
+	f := fr
+	for f.parent != nil {
+		f = f.parent
+	}
+	return f.ct != nil && f.ct.Synth
+}
 
 // siteOrdinal numbers the call sites of one callee statically (source order of
 // the SSA blocks), so that contract references like callee#2 are stable and do
@@ -742,6 +773,9 @@ func (fr *Frame) havocPtrArgs(c *ssa.CallCommon, args []Val, st *State) {
 				st.setCell(x.Cell, update(cv, x.Path, vc.freshVal(t, x.Cell.Name)))
 			case PField:
 				s := structOf(x.ST)
+				if isSyncPrimitive(s.Field(x.FI).Type()) {
+					continue // mutex / atomic state is not tracked (concurrency is out of scope)
+				}
 				vc.storeField(st, x.Base, x.ST, x.FI, vc.freshVal(s.Field(x.FI).Type(), "out"))
 			case PElem:
 				vc.storeElem(st, x.Base, *x.Idx, x.Elem, vc.freshVal(x.Elem, "out"))
@@ -771,6 +805,15 @@ func (fr *Frame) havocPtrArgs(c *ssa.CallCommon, args []Val, st *State) {
 			}
 		}
 	}
+}
+
+func isSyncPrimitive(t types.Type) bool {
+	n, ok := types.Unalias(t).(*types.Named)
+	if !ok || n.Obj().Pkg() == nil {
+		return false
+	}
+	p := n.Obj().Pkg().Path()
+	return p == "sync" || p == "sync/atomic" || strings.HasSuffix(p, "x/sync/semaphore")
 }
 
 func (fr *Frame) havocClosureArgs(args []Val, st *State) {
